@@ -47,6 +47,8 @@ func (sc *SchemaCache) Schema(src protoreflect.MessageDescriptor) (RootSchema, e
 		placeholder.To, err = schemaPackage.buildObjectSchema(src, msgOptions.GetObject())
 	}
 	if err != nil {
+		// do not leave a typed nil behind: a later lookup must see "not built"
+		placeholder.To = nil
 		return nil, err
 	}
 	if placeholder.To.FullName() != placeholder.FullName() {
